@@ -36,6 +36,82 @@ func checkC14(p *Prog, r *Report) {
 	c14FanOut(p, r)
 	c14ClusterDispatch(p, r, "C14.cluster-dispatch")
 	c14Subscription(p, r)
+	c14Handoff(p, r)
+}
+
+// c14Handoff: the hand-over of an event frame from the control connection's reader to the
+// cluster's control loop cannot lose the frame.
+func c14Handoff(p *Prog, r *Report) {
+	const rule = "C14.event-handoff"
+	r.Rule(rule, "the control connection's event handler hands every event frame to the control loop: the channel send is unconditional, or one arm of a blocking select whose other arms only give up when the cluster is shutting down; no default arm, no timer, no drop when a queue is full")
+	cl := p.Named("proxycore", "Cluster")
+	evF := p.Field("proxycore", "Cluster", "events")
+	var handlers []*ssa.Function
+	for _, m := range p.methodsOf(cl) {
+		// the EventHandler implementation: takes the frame and nothing else
+		if len(m.Params) == 2 && typeIs(m.Params[1].Type(), "frame", "Frame") && m.Signature.Results().Len() == 0 {
+			handlers = append(handlers, m)
+		}
+	}
+	if len(handlers) == 0 {
+		fatalf("rule %s: the cluster's event handler was not found", rule)
+	}
+	for _, h := range handlers {
+		var bad []string
+		sends := 0
+		for _, f := range withCallees(p, h, 1) {
+			if f != h && recvNamed(f) != cl {
+				continue
+			}
+			eachInstr(f, func(in ssa.Instruction) {
+				switch x := in.(type) {
+				case *ssa.Send:
+					if fl, _ := loadedField(x.Chan); fl == evF {
+						sends++
+						// unconditional within the handler?
+						for _, ct := range dominatingConds(x.Block()) {
+							_ = ct
+							bad = append(bad, p.Pos(x.Pos())+": the event is handed over only under a condition")
+							break
+						}
+					}
+				case *ssa.Select:
+					for _, st := range x.States {
+						if fl, _ := loadedField(st.Chan); fl != evF || st.Dir != types.SendOnly {
+							continue
+						}
+						sends++
+						if !x.Blocking {
+							bad = append(bad, p.Pos(x.Pos())+": the event is handed over with a non-blocking send (select with default): when the control loop is busy and the queue is full the frame is dropped and no client ever sees that schema change")
+						}
+						for _, o := range x.States {
+							if o == st {
+								continue
+							}
+							okAlt := false
+							if o.Dir == types.RecvOnly {
+								for _, oo := range origins(o.Chan) {
+									if c, ok := oo.(*ssa.Call); ok && (c.Call.IsInvoke() && c.Call.Method.Name() == "Done") {
+										okAlt = true // ctx.Done()
+									}
+									if fl, _ := loadedField(oo); fl != nil && (strings.Contains(strings.ToLower(fl.Name()), "clos") || strings.Contains(strings.ToLower(fl.Name()), "done")) {
+										okAlt = true
+									}
+								}
+							}
+							if !okAlt {
+								bad = append(bad, p.Pos(x.Pos())+": the hand-over competes with an arm that is not a shutdown signal: the frame can be dropped while the cluster is running")
+							}
+						}
+					}
+				}
+			})
+		}
+		if sends == 0 {
+			bad = append(bad, "the handler does not hand the frame to the control loop's channel")
+		}
+		r.check(len(bad) == 0, rule, "Cluster."+h.Name(), p.Pos(h.Pos()), fmt.Sprintf("%d hand-over site(s)", sends), strings.Join(dedupe(bad), " || "))
+	}
 }
 
 func c14Registry(p *Prog, r *Report) {
